@@ -345,7 +345,8 @@ class MinimizerIMinuit(MinimizerBase):
         try:
             _bound_low, _bound_high, _arrow_specs = self._get_profile_bound(parameter_name, low, high, sigma, cl, subtract_min, arrows)
             self._load_state()  # return to minimum
-            _kwargs = dict(bound=(_bound_low, _bound_high), subtract_min=subtract_min)
+            # MINUIT would subtract the lowest value on the grid, which is not the minimum of the cost function
+            _kwargs = dict(bound=(_bound_low, _bound_high), subtract_min=False)
             if _IMINUIT_1:
                 _kwargs["bins"] = size
             else:
@@ -354,6 +355,8 @@ class MinimizerIMinuit(MinimizerBase):
             # TODO: check statuses (?)
         finally:
             self._load_state()  # return to minimum, also if the calculation fails
+        if subtract_min:
+            _vals = np.asarray(_vals) - self.function_value
         return np.array([_bins, _vals]), _arrow_specs
 
     def set(self, parameter_name, parameter_value):
